@@ -143,6 +143,8 @@ def gen_data(cfg):
         pts_k = []
         for fi, (t0, t1) in enumerate(files):
             n = int(rng.integers(1, cfg[which]["ppf"] + 1))
+            if cfg[which].get("exact_ppf"):
+                n = cfg[which]["ppf"]
             if grid:      # instrument on a fixed grid: every file holds the same positions, some only a few
                 n = 3 if rng.random() < grid["tiny_p"] else grid["n"]
             elif cfg.get("grid"):
@@ -513,7 +515,7 @@ def expected_for(sets, cfg, drop_ids=()):
     return {"must": must, "may": may}, info
 
 
-def gen_cfg(rng):
+def gen_cfg(rng, force=None):
     mi = rng.choice([60, 600, 1800, 7200])
     a_len = rng.choice([[600, 1200], [1800], [300, 900, 2400]])
     b_len = rng.choice([[600, 1500], [3600], [7200, 14400], [40000]])
@@ -533,7 +535,7 @@ def gen_cfg(rng):
         cfg["A"]["files"] = min(cfg["A"]["files"], 4)
         cfg["B"]["files"] = min(cfg["B"]["files"], 3)
         cfg["B"]["lengths"] = [600, 1500]
-    if rng.random() < 0.15:
+    if force == "grid" or (force is None and rng.random() < 0.15):
         # an instrument on a fixed grid (identical positions in consecutive files, a few partial files)
         # against a dense track: consecutive file pairs of one worker can reuse the spatial index
         cfg["grid"] = {"n": rng.choice([40, 100]), "tiny_p": 0.3}
@@ -542,7 +544,24 @@ def gen_cfg(rng):
                          "ppf": rng.choice([60, 130, 200])})
         cfg["B"].update({"files": rng.choice([6, 10]), "lengths": [600, 1500], "gaps": [0],
                          "first": rng.choice([0, 1800])})
+        if force == "grid":
+            # the proportions under which one worker reuses the grid's index and then meets a partial
+            # file: about 50 track points in the window of a 100-point grid file
+            cfg["grid"] = {"n": 100, "tiny_p": 0.3}
+            cfg["mi_s"] = 600
+            cfg["A"].update({"files": 1, "lengths": [9000], "ppf": 200, "exact_ppf": True})
+            cfg["B"].update({"files": 10, "lengths": [900], "first": 600})
         cfg["collision_probe"] = False
+    if force == "big":
+        # file pairs with more than 1e6 candidate point pairs: the temporally pre-binned search
+        cfg["mi_s"] = rng.choice([60, 600])
+        cfg["A"].update({"files": 1, "lengths": [7200], "gaps": [0], "first": 0, "ppf": 1500,
+                         "exact_ppf": True})
+        cfg["B"].update({"files": rng.choice([1, 2]), "lengths": [7200], "gaps": [0, 600],
+                         "first": rng.choice([0, 300]), "ppf": 1100, "exact_ppf": True})
+        cfg["r_km"] = rng.choice([5.0, 20.0])
+        cfg["collision_probe"] = False
+        cfg["big"] = True
     # period: everything, or cutting through files
     total = 12 * 2400 + 3600
     if rng.random() < 0.5:
@@ -550,6 +569,20 @@ def gen_cfg(rng):
     else:
         a = rng.randrange(0, 7200)
         cfg["start"], cfg["end"] = a, a + rng.choice([900, 3600, 20000])
+    if force == "midnight" or (force is None and rng.random() < 0.15):
+        # files that sit in the directory of their start day and reach into the next day; the period
+        # starts on that next day
+        cfg["mi_s"] = rng.choice([60, 600, 1800])
+        cfg["A"].update({"files": rng.choice([8, 10, 12]), "lengths": [1800, 2400], "gaps": [0, 1],
+                         "first": rng.choice([78000, 82000, 84500]), "ppf": rng.choice([10, 40])})
+        cfg["B"].update({"files": rng.choice([3, 4]), "lengths": rng.choice([[7200, 14400], [3600, 5400]]),
+                         "gaps": [0, 600], "first": rng.choice([76000, 81000, 85000]),
+                         "ppf": rng.choice([10, 40])})
+        cfg.pop("grid", None)
+        cfg["collision_probe"] = False
+        a = 86400 + rng.choice([0, 600, 1800, 5400])
+        cfg["start"], cfg["end"] = a, a + rng.choice([3600, 7200, 86400])
+        cfg["midnight"] = True
     return cfg
 
 
@@ -669,7 +702,12 @@ def classify_file_output(rec, root, cfg, opt, reg, sets, expected, info, case, f
 def run_shard(spec, rec):
     rng = rng_for(spec["seed"], "c05", spec["shard"])
     for i in range(spec["n"]):
-        cfg = gen_cfg(rng)
+        # every fourth shard starts with one configuration of a class that is rare in the random mix
+        force = {1: "grid", 2: "midnight", 3: "big"}.get(spec["shard"] % 4) if i == 0 else None
+        cfg = gen_cfg(rng, force)
+        for k in ("grid", "midnight", "big"):
+            if cfg.get(k):
+                rec.count("configs." + k)
         if i < 1:
             rec.sample(cfg)
         try:
